@@ -4,6 +4,7 @@ import (
 	"fmt"
 	"go/ast"
 	"go/token"
+	"golang.org/x/tools/go/ssa"
 	"sort"
 	"strings"
 )
@@ -233,6 +234,85 @@ func ruleN4(c *Ctx) {
 	c.expectMin("N4", 8)
 }
 
+// N5: the number helper of the expires / q parameters rejects only what is not a number. Every error return of
+// pUInt64Val lies inside its digit loop (a non-digit, or the value does not fit) or is selected by the "too long"
+// test len(b) > K; in particular the empty string is the number 0 ("q=1." has an empty fraction).
+func ruleN5(c *Ctx) {
+	fn := c.SFuncs["pUInt64Val"]
+	if fn == nil {
+		c.fail("N5", "pUInt64Val", token.NoPos, "not found")
+		return
+	}
+	loops := naturalLoops(fn)
+	ei := errResultIndex(fn)
+	if len(loops) != 1 || ei < 0 {
+		c.fail("N5", "pUInt64Val:shape", fn.Pos(), "expected one digit loop and an error result")
+		return
+	}
+	l := loops[0]
+	// blocks dominated by the true edge of a len(b) > K test
+	long := map[*ssa.BasicBlock]bool{}
+	for _, b := range fn.Blocks {
+		iff, ok := b.Instrs[len(b.Instrs)-1].(*ssa.If)
+		if !ok {
+			continue
+		}
+		bo, ok := iff.Cond.(*ssa.BinOp)
+		if !ok || bo.Op != token.GTR {
+			continue
+		}
+		call, ok := bo.X.(*ssa.Call)
+		k, isC := constIntOf(bo.Y)
+		if !ok || !isC || k < 1 {
+			continue
+		}
+		if bi, ok := call.Call.Value.(*ssa.Builtin); ok && bi.Name() == "len" {
+			for _, b2 := range fn.Blocks {
+				if b.Succs[0].Dominates(b2) && len(b.Succs[0].Preds) == 1 {
+					long[b2] = true
+				}
+			}
+		}
+	}
+	n, nerr, zeroOK := 0, 0, false
+	for _, b := range fn.Blocks {
+		ret, ok := b.Instrs[len(b.Instrs)-1].(*ssa.Return)
+		if !ok {
+			continue
+		}
+		n++
+		k, isC := constIntOf(ret.Results[ei])
+		if isC && k == 0 {
+			// the plain return: reached from the loop exit, also with zero iterations
+			if v, ok := ret.Results[0].(*ssa.Phi); ok && v.Block() == l.head {
+				zeroOK = true
+			}
+			continue
+		}
+		nerr++
+		inLoop := false
+		for _, sb := range l.head.Succs {
+			if l.body[sb] && sb != l.head && sb.Dominates(b) {
+				inLoop = true // reached only after the loop took a byte
+			}
+		}
+		c.check(inLoop || long[b], "N5", fmt.Sprintf("pUInt64Val:error-return#%d", nerr), ret.Pos(), "this error return lies inside the digit loop or under the too-long test (an empty string is not an error)")
+	}
+	c.check(zeroOK && nerr >= 3, "N5", "pUInt64Val:empty-is-zero", fn.Pos(), fmt.Sprintf("the success return hands back the accumulator as the loop left it (0 for an empty string); %d returns, %d error returns", n, nerr))
+}
+
+// N6: shared with C01/C02 rule R3b.
+func ruleN6(c *Ctx) {
+	t := &Ctx{Prog: c.Prog, Prop: c.Prop}
+	ruleR3b(t)
+	for _, o := range t.obls {
+		o.Key = "N6:" + strings.TrimPrefix(o.Key, "R3b:")
+		o.Rule = "N6"
+		c.obls = append(c.obls, o)
+	}
+	c.expectMin("N6", 4)
+}
+
 func init() {
 	register(&PropDef{
 		ID: "C09",
@@ -240,6 +320,8 @@ func init() {
 			{"N1", "from the extracted name-addr automaton (33 states x byte classes): the more-values exit is reached only on ',', only outside quoted strings and angle brackets, only under multipleValsOk(kind) whose constant set is Contact/Record-Route/Route/PAI, and continues after the comma", ruleN1},
 			{"N2", "after-whitespace sibling states (found structurally: X -LWS-> Y) accept every delimiter of ';' ',' '=' that the state before the whitespace accepts - the static form of 'optional linear whitespace around ; = and ,'", ruleN2},
 			{"N3", "every transition that ends a parameter value (to a non-value state or a completing exit) calls setFromParamVal; the known names tag/expires/q/lr are recognised by length + CmpEq of the whole name and nothing else", ruleN3},
+			{"N6", "Contact / P-Asserted-Identity headers always reach their typed parser and their header counter (shared with C01-R3b): the dispatch state is never left undispatched and the dispatcher reports a non-zero verdict only after storing a typed state", ruleN6},
+			{"N5", "the number helper behind expires / q rejects only non-numbers: every error return of pUInt64Val lies inside its digit loop or under the len(b) > K test, and its success return hands back the accumulator as the loop left it, so the empty string is 0 (q=1. has an empty fraction)", ruleN5},
 			{"N4", "list bookkeeping: N++, Min/MaxExpires, first-contact copy unconditional in the completion clause, HNo on first entry, header kind recorded on every completing exit", ruleN4},
 		},
 		Assumptions: []string{"skipLWS consumes only linear whitespace"},
